@@ -42,6 +42,8 @@ def h_filter_val_str(op_i: int, val: str, vmin: Optional[str], vmax: Optional[st
     pre: len(val) <= SLEN and len(x) <= SLEN
     pre: vmin is None or (len(vmin) <= SLEN and vmin <= x)
     pre: vmax is None or (len(vmax) <= SLEN and x <= vmax)
+    pre: chr(0) not in val and chr(0) not in x
+    pre: (vmin is None or chr(0) not in vmin) and (vmax is None or chr(0) not in vmax)
     post: __return__
     """
     op = OPS[op_i]
@@ -110,8 +112,11 @@ def h_filter_in_str(values: List[str], vmin: Optional[str], vmax: Optional[str],
     pre: len(values) <= 2 and all(len(v) <= 1 for v in values) and len(x) <= 1
     pre: vmin is None or (len(vmin) <= 1 and vmin <= x)
     pre: vmax is None or (len(vmax) <= 1 and x <= vmax)
+    pre: all(chr(0) not in v for v in values) and chr(0) not in x
+    pre: (vmin is None or chr(0) not in vmin) and (vmax is None or chr(0) not in vmax)
     post: __return__
     """
+    # NUL excluded: numpy/pandas string arrays drop trailing NULs, so 'a' + NUL and 'a' are one value to the real reader
     if x not in values:
         return True
     return not api.filter_val("in", values, vmin, vmax)
@@ -576,6 +581,15 @@ def _replay_stats_file(filters, x, vmin, vmax):
     try:
         fn = os.path.join(d, "t.parq")
         fastparquet.write(fn, df, stats=True)
+        if vmin is None or vmax is None:
+            # realise the witness exactly: a chunk statistic carrying one bound only
+            from vf.pyshim.realfile import drop_bounds
+            drop_bounds(fn, "x", drop_min=vmin is None, drop_max=vmax is None)
+        if vmin == "" or vmax == "":
+            # an empty-string bound survives `s.max or s.max_value` only when both spellings are present (as
+            # writers following the current format do): give the file both
+            from vf.pyshim.realfile import both_spellings
+            both_spellings(fn, "x")
         pf = fastparquet.ParquetFile(fn)
         out = pf.to_pandas(filters=filters)
         op, val = filters[0][1], filters[0][2]
